@@ -395,6 +395,10 @@ func init() {
 					frames = append(frames, buildFrame(hdrSpec{id: 0x0002, serial: next(), ver: ver, verbyte: 1, phone: phone}))
 					ages = append(ages, 0)
 				}
+				if r.Intn(8) == 0 { // an unfragmented message with the id of the open transfer: a message of its own, the transfer goes on
+					frames = append(frames, buildFrame(hdrSpec{id: p.id, serial: next(), ver: ver, verbyte: 1, phone: phone, body: randBody(r, len(frames))}))
+					ages = append(ages, 0)
+				}
 				if r.Intn(10) == 0 { // impossible number
 					no := []int{0, p.total + 1, p.total + 7}[r.Intn(3)]
 					frames = append(frames, partFrame(r, p.id, ver, phone, next(), p.total, no, []byte{9, 9}))
